@@ -32,13 +32,13 @@ def V(impl, clause, trigger, detail, case):
 
 
 http_fault = st.one_of(
-    st.fixed_dictionaries({'on': st.just('http'), 'n': st.integers(0, 6),
+    st.fixed_dictionaries({'on': st.just('http'), 'n': st.sampled_from([0, 0, 0, 1, 1, 2, 3, 4, 5, 6]),
                            'kind': st.sampled_from(['refuse', 'hang', 'drop-after'])}),
-    st.fixed_dictionaries({'on': st.just('http'), 'n': st.integers(0, 6), 'kind': st.just('status'),
+    st.fixed_dictionaries({'on': st.just('http'), 'n': st.sampled_from([0, 0, 0, 1, 1, 2, 3, 4, 5, 6]), 'kind': st.just('status'),
                            'status': st.sampled_from([400, 401, 403, 404, 500, 502, 301, 199]),
                            'body': st.sampled_from(['oops', '{"message": "no"}', '"text"', '', '{']),
                            'ctype': st.sampled_from(['text/plain', 'application/json'])}),
-    st.fixed_dictionaries({'on': st.just('http'), 'n': st.integers(0, 6), 'kind': st.just('garbage'),
+    st.fixed_dictionaries({'on': st.just('http'), 'n': st.sampled_from([0, 0, 0, 1, 1, 2, 3, 4, 5, 6]), 'kind': st.just('garbage'),
                            'body': st.sampled_from(['garbage', '', '4hello', '6', '\x1e', '0', '0{',
                                                     '1', 'b', '٣', '0[1,2]'])}),
 )
